@@ -233,7 +233,7 @@ func genReceiver(c *Case) rtp.VLA {
 		var recv rtp.VLA
 		if b, err := randValidVLA(r).Marshal(); err == nil {
 			try(func() { recv.Unmarshal(b) }) //nolint
-			if r.Chance(1, 3) { // a second decode into the same value
+			if r.Chance(1, 3) {               // a second decode into the same value
 				if b2, err := randValidVLA(r).Marshal(); err == nil {
 					try(func() { recv.Unmarshal(b2) }) //nolint
 				}
@@ -478,6 +478,52 @@ var vlaVectors = []string{
 	"00", "3730", "0000", "000000", "10130064c801ac0200", "110064",
 }
 
+// vlaFuzzCorpus: the inputs Go's coverage-guided fuzzer found interesting when FuzzVLAUnmarshal was
+// run for 20 s on the repaired tree (1.1 M executions, no crash); kept as a fixed corpus.
+var vlaFuzzCorpus = []string{
+	"",
+	"58",
+	"1030",
+	"4030",
+	"4130",
+	"000030",
+	"303030",
+	"313030",
+	"373030",
+	"583030",
+	"30000030",
+	"37303030",
+	"00303080a1",
+	"3130f0ed30",
+	"7f30303030",
+	"2730303030c3",
+	"41b23030d73030",
+	"3141303030303030",
+	"4130303030303030",
+	"31303085858585303030",
+	"31313030303030303030",
+	"3730303030303030303030",
+	"313085859c8585859c30f830",
+	"4330303030303030303030303030303030",
+	"39303030303030303030303030303030d99930",
+	"3730303030303030303030303030303030303030",
+	"31303030ade295cac3c48a30ffd0caa63097f8e3b2b530",
+	"31413030303030303030303030303030303030303030303030303030",
+	"317a30eab2d3aea5a930303030a6dfb7c2af30b7c8abd4d0f3b2303030ab30309330",
+	"7f304130303030303030303030303030303030303030303030303030303030303030",
+	"3730b77a3030303030303030303030303030303030303030303030303030303030303030",
+	"31303030e398d0f18130dc9f89bad1f1fa3085fa8bace6fba530fdc0fad6fe92309bb6d9e28b8afd30",
+	"39014130ff8f3030d230303030b530308ba89230cc3030303030303030303030303030303030303030303030303030303030303030303030303030303030",
+	"317a30eab2d3aecacacacacacacacacacacacacacacacacacacacacacacacacacacacacacacacaa5a930303030a6dfb7c2af30b7c8abd4d0f3b2303030ab30309330",
+	"30e730373730abf2e1cb97ba303080ed9d3081309abbe9cd30d830a5b830c5cc9f30f130f6e69b3030303080a0ad91a59c30ac30ca30c13094b2ce30a8e6dc30a830bef130",
+	"ffffffffff30303030303030303030303030303030303030303030303030303030303030303030303030303030303030303030303030303030303030303030303030303030",
+	"3141303030fefefefefefefefefefefefefefefefefefefefefefefefefefefefefefefefefefefefefefefefefefefefefefefefefefefefefefefefefefefefefefefefefefefefefefefefefefefefefefefefefefefefefefefefefefefefe30303030",
+	"7f303030303030303030303030303030303030303030303030303030303030303030303030303030303030303030303030303030303030303030303030303030303030303030303030303030303030303030303030303030303030303030303030303030303030303030303030303030303030303030",
+	"3130c3c3c3c3c3c3c3c3c3c3c3c3c3c3c3c3c3c3c3c3c3c3c3c3c3c3c3c3c3c3c3c3c3c3c3c3c3c3c3c3c3c3c3c3c3c3c3c3c3c3c3c3c3c3c3c3c3c3c3c3c3c3c3c3c3c3c3c3c3c3c3c3c3c3c3c3c3c3c3c3c3c3c3c3c3c3c3c3c3c3c3c3c3c3c3c3c3c3c3c3c3c3c3c3c3c3c3c3b0c3c3c3c3c3c3c3c3c3c3c3c3c3c3c3c3c3c3c3",
+	"3130c3c3c3c3c3c3c3c3c3c3c3c3c3c3c3c3c3c3c3c3c3c3c3c3c3c3c3c3c3c3c3c3c3c3c3c3c3c3c3c3c3c3c3c3c3c3c3c3c3c3c3c3c3c3c3c3c3c3c3c3c3c3c3c3c3c3c3c3c3c3c3c3c3c3c3c3c3c3c3c3c3c3c3c3c3c3c3c3c3c3c3c3c3c3c3c3c3c3c3c3c3c3c3c3c3c3c3c3c3c3c3c3c3c3c3c3c3c3c3c3c3c3c3c3c3c3c3c3",
+	"ffff7fff37303030a68c30db30913030e3eaa230df8295f0dd30bb8b3030c23083d0309d30ddd6f2869f88303030e6a9e7f7fcb030de303030f1efb9309ccc30a6cae230ff303099b8b030303030ff30e9a030e5c49cff30c1f39a30b8ec30bc303087ea3030c23030303084edf3d530899a303030303090308230df308230303030b7a8303030303030303030303030303030303030303030303030303030303030303030303030303030303030303030303030303030303030303030303030303030303030303030303030303030303030303030",
+}
+
 func genC19Dec(x *Ctx) {
 	one := func(b []byte, tag string) {
 		x.Case(func(c *Case) {
@@ -501,6 +547,15 @@ func genC19Dec(x *Ctx) {
 		for k := 1; k <= 6; k++ {
 			one(append(append([]byte{}, b...), make([]byte, k)...), "vector+zeros")
 			one(append(append([]byte{}, b...), 0xFF, 0x80, 0xFF, 0x01, 0x02, 0x03)[:len(b)+k], "vector+bytes")
+		}
+	}
+	for _, h := range vlaFuzzCorpus {
+		b, _ := hex.DecodeString(h)
+		one(b, "fuzz-corpus")
+		for _, n := range []int{1, 2, 3, len(b) / 2, len(b) - 1} {
+			if n > 0 && n < len(b) {
+				one(b[:n], "fuzz-corpus-prefix")
+			}
 		}
 	}
 	// every header byte followed by a few fixed tails
